@@ -55,6 +55,7 @@ pub mod server {
             mod h {
                 use super::*;
                 include!("/verif/kani/proto/src/h/c13.rs");
+                include!("/verif/kani/proto/src/h/c15c.rs");
             }
         }
     }
